@@ -390,7 +390,7 @@ def scenarios(ctx):
     # late-added callbacks: every link gets one more callback after the previous link fired, for plain
     # links and for every link kind
     for order, kind, pausespec in shapes:
-        out.append(("chain", order + "+late", kind, big, pausespec, None))
+        out.append(("chain", order + "+late", kind, big if order == "outer-first" and not pausespec else small, pausespec, None))
         for cls in ("trivial", "overriding", "dlist"):
             out.append(("chain", order + "+late", kind, small, pausespec, cls + "-all"))
     for cls in ("trivial", "overriding"):
